@@ -61,6 +61,18 @@ def gen_real(rng, i, tier):
     return lines
 
 
+def gen_sweep(rng, i, tier):
+    """every single packet of a stream with many block-size switches lost (and, on a second pass, duplicated): a loss next to a switch leaves the
+    following long block with a window flag that describes the missing packet"""
+    ch, rate, q = rng.choice([(1, 44100, "0.4"), (2, 44100, "0.5"), (2, 48000, "0.1"), (1, 22050, "0.5"), (2, 32000, "0.7")])
+    lines = ["case %d" % i, "real %d %d %s %d %d %d" % (ch, rate, q, 10, rng.randint(1, 10 ** 6), 40000 if tier == "quick" else 120000)]
+    for j in range(0, 90 if tier == "quick" else 260):
+        lines.append("fault 1 %d 0 %d" % (j, rng.choice([0, 0, 3])))
+    for j in range(0, 90 if tier == "quick" else 260, 3):
+        lines.append("fault 2 %d 0 0" % j)
+    return lines
+
+
 def kv(l):
     return dict(t.split("=", 1) for t in l.split(" ")[1:] if "=" in t)
 
@@ -70,7 +82,7 @@ def run(chk):
     broken = chk.proof_side(theorems)
     nd, nr = (24, 16) if chk.tier == "quick" else (200, 200)
     dcases = [gen_direct(chk.rng, i) for i in range(nd)]
-    rcases = [gen_real(chk.rng, nd + i, chk.tier) for i in range(nr)]
+    rcases = [gen_real(chk.rng, nd + i, chk.tier) for i in range(nr)] + [gen_sweep(chk.rng, nd + nr + k, chk.tier) for k in range(2 if chk.tier == "quick" else 8)]
     crash, ofail, dis = [], [], []
     # ---- part 1: provenance model vs vorbis_synthesis_blockin on marker blocks
     dres = vlib.run_harness_only("c11", dcases, timeout=1800)
